@@ -237,6 +237,33 @@ func specLayersOK(p *FrameParser) bool {
 //@ ensures[C10.rm.class]     ret0 != nil ==> noRepoErr(ret0)
 //@ modifies nothing
 
+// Closing the Linux capture source / raw sink closes exactly the one file they own (descriptor-level typestate osOpen:
+// the file must still be open — a second Close is a violation — and no other descriptor or file changes state); the
+// error is the file's own.
+//@ func (*afPacketSource).Close
+//@ safety C10
+//@ requires[pre.nonnil]          a != nil && a.sock != nil
+//@ requires[C10.afp.close.open]  selb(osOpen, ref(a.sock))
+//@ ensures[C10.afp.close.os]     !selb(osOpen, ref(a.sock)) && forallint(k, k != ref(a.sock) ==> selb(osOpen, k) == old(selb(osOpen, k)))
+//@ ensures[C10.afp.close.err]    ret0 != nil ==> noRepoErr(ret0)
+//@ modifies ghost osOpen
+
+// The read deadline the engines ask for is the one armed on the capture file (C08: every blocking read is governed by it),
+// exactly once per request, and the file's answer is returned as is.
+//@ func (*afPacketSource).SetReadDeadline
+//@ safety C08 C10
+//@ requires[pre.nonnil]       a != nil && a.sock != nil
+//@ ensures[C08.afp.deadline]  ncalls("(*File).SetReadDeadline") == old(ncalls("(*File).SetReadDeadline")) + 1 && lastarg("(*File).SetReadDeadline", t) == t && ret0 == lastres("(*File).SetReadDeadline", 0)
+//@ modifies nothing
+
+//@ func (*sinkLinux).Close
+//@ safety C10
+//@ requires[pre.nonnil]          p != nil && p.sock != nil
+//@ requires[C10.sink.close.os.open] selb(osOpen, ref(p.sock))
+//@ ensures[C10.sink.close.os]    !selb(osOpen, ref(p.sock)) && forallint(k, k != ref(p.sock) ==> selb(osOpen, k) == old(selb(osOpen, k)))
+//@ ensures[C10.sink.close.err]   ret0 != nil ==> noRepoErr(ret0)
+//@ modifies ghost osOpen
+
 // Installing a filter on the capture socket: success means the program selected for exactly this specification was
 // attached by this very call (nothing is remembered from earlier calls); every failure comes back wrapped.
 //@ func (*afPacketSource).SetPacketFilter
